@@ -1,5 +1,5 @@
 CONSTANTS
-  MaxRows = 5
+  MaxRows = 6
   MaxDepth = 3
   InitRowsA = {2}
   WithEmptyB = FALSE
